@@ -78,7 +78,7 @@ var properties = map[string]*Property{
 	"C11": {
 		ID: "C11",
 		Runs: []Run{
-			{Dir: "c11", Pkg: "internal/execute", Fn: "VerifC11Filter", Needs: []string{"stale Running plan", "live Running plan", "boundary age resumed", "non-Running plan left alone"}},
+			{Dir: "c11", Pkg: "internal/execute", Fn: "VerifC11Filter", NativeLenient: true, Needs: []string{"stale Running plan", "live Running plan", "boundary age resumed", "non-Running plan left alone"}},
 			{Dir: "c11", Pkg: "internal/execute", Fn: "VerifC11New", Needs: []string{"recovery disabled", "recovery enabled"}},
 		},
 		Assumptions: append([]string{
@@ -95,7 +95,7 @@ var properties = map[string]*Property{
 		Runs: []Run{
 			{Dir: "c12", Pkg: "internal/execute", Fn: "VerifC12Race", P: [2]int{2, 3}, Ticks: [2]int{1, 1}, SwitchOn: []string{"yield:r", "lock"}, Needs: []string{"race explored"}},
 			{Dir: "c12", Pkg: "internal/execute", Fn: "VerifC12Repeat", P: [2]int{1, 2}, Ticks: [2]int{1, 1}, SwitchOn: []string{"yield:r", "lock"}, Needs: []string{"restart after finish rejected", "restart while starting explored"}},
-			{Dir: "c12", Pkg: "internal/execute", Fn: "VerifC12Stale", Needs: []string{"stale submission rejected", "fresh submission accepted", "boundary age accepted"}},
+			{Dir: "c12", Pkg: "internal/execute", Fn: "VerifC12Stale", NativeLenient: true, Needs: []string{"stale submission rejected", "fresh submission accepted", "boundary age accepted"}},
 			{Dir: "c12ws", Pkg: "", Fn: "VerifC12History", Ticks: [2]int{1, 1}, Needs: []string{"a plan was started", "waited for a started plan"}},
 		},
 		Assumptions: append([]string{
